@@ -265,7 +265,9 @@ def iterpath(obj, path=None):
 def check_tlp_marking(marking_obj, spec_version):
     # Specific TLP Marking validation case.
 
-    if marking_obj.get("definition_type", "") == "tlp":
+    # (a 2.1 marking definition may carry its content in extensions instead
+    # of "definition": then there is no TLP marking object to check)
+    if marking_obj.get("definition_type", "") == "tlp" and "definition" in marking_obj:
         color = marking_obj["definition"]["tlp"]
 
         if color == "white":
